@@ -72,6 +72,10 @@ func fnSInter(ctx *cmdContext, args map[string]any) (output respValue, err error
 func fnSInterCard(ctx *cmdContext, args map[string]any) (output respValue, err error) {
 	keyNames := args["key"].([]any)
 	limit64, _ := args["limit"].(int64)
+	if limit64 < 0 {
+		output.data = respErrorString("ERR LIMIT can't be negative")
+		return
+	}
 	numkeys64 := args["numkeys"].(int64)
 
 	numkeys := int(numkeys64)
